@@ -62,7 +62,8 @@ class C19(Check):
     expected_probes = ["equivalence_compared", "repeat_convert",
                       "repeat_compute_scales", "sharded_program",
                       "multi_scale", "convert_chunks_step", "stats_step",
-                      "both_failed_vacuous", "mmap", "header_scaling"]
+                      "both_failed_vacuous", "mmap", "header_scaling",
+                      "input_max_rescaling"]
 
     def setup_worker(self):
         from sim import simenv, simfs, simproc
@@ -105,6 +106,9 @@ class C19(Check):
                "gzip": rng.random() < 0.6,
                "mmap": rng.random() < 0.3,
                "ignore_scaling": rng.random() < 0.15,
+               "input_max": rng.choice([None, None, None, 100.0, 255.0,
+                                        1000.0]),
+               "input_min": rng.choice([None, None, 0.0, 10.0, -5.0]),
                "outside": rng.choice([None, None, 0.0, 7.0]),
                "repeat_convert": rng.random() < 0.4,
                "repeat_scales": rng.random() < 0.4,
@@ -155,6 +159,12 @@ class C19(Check):
             conv_opts.append("--mmap")
         if scn["ignore_scaling"]:
             conv_opts.append("--ignore-scaling")
+        scale_opts = []
+        if scn.get("input_max") is not None:
+            scale_opts += ["--input-max", str(scn["input_max"])]
+            if scn.get("input_min") is not None:
+                scale_opts += ["--input-min", str(scn["input_min"])]
+        conv_opts += scale_opts
         ds_opts = []
         if scn["method"] != "auto":
             ds_opts += ["--downscaling-method", scn["method"]]
@@ -169,6 +179,7 @@ class C19(Check):
         gi = ["volume-to-precomputed", "--generate-info", "VOL", S]
         if scn["ignore_scaling"]:
             gi.append("--ignore-scaling")
+        gi += scale_opts
         if scn["sharding"]:
             gi += ["--sharding", ",".join(map(str, scn["sharding"]))]
             if not scn["gzip"]:
@@ -437,6 +448,8 @@ class C19(Check):
             res.probe("mmap")
         if scn["scaling"]:
             res.probe("header_scaling")
+        if scn.get("input_max") is not None:
+            res.probe("input_max_rescaling")
         res.digest = log.digest()
         res.steps = fs.total_calls
         res.nontrivial = compared > 0
@@ -457,6 +470,7 @@ class C19(Check):
                           ("convert_chunks", False), ("stats", False),
                           ("mmap", False), ("ignore_scaling", False),
                           ("scaling", False), ("flat", False), ("gzip", False),
+                          ("input_max", None), ("input_min", None),
                           ("outside", None), ("nchan", 0), ("type", None),
                           ("encoding", None), ("method", "auto"),
                           ("max_scales", None), ("blksize", 4096),
